@@ -15,7 +15,7 @@ SPECS = {}
 for _i in range(1, 21):
     SPECS["C%02d" % _i] = {}
 
-SPECS["C05"]["harnesses"] = [("hu", "asan"), ("hn", "asan"), ("xu", "asan")]
+SPECS["C05"]["harnesses"] = [("hu", "asan"), ("hn", "asan"), ("xu", "asan"), ("hu", "msan"), ("xn", "msan")]
 SPECS["C20"]["harnesses"] = [("hu", None), ("hn", None), ("xu", None), ("xn", None)]
 SPECS["C19"]["harnesses"] = [("hu", None)]
 
@@ -1012,10 +1012,10 @@ def run_C05(tier, rng, chk):
         L.append("%d F" % k)
         L.append("%d F" % k)
     st_heap = [("c05_alloc", L)]
-    for (variant, san) in (("hu", "asan"), ("hn", "asan"), ("xu", "asan")):
+    for (variant, san) in (("hu", "asan"), ("hn", "asan"), ("xu", "asan"), ("hu", "msan"), ("xn", "msan")):
         ss = st + (st_heap if variant.startswith("h") else [])
         out = chk.run_stream(ss, prop="C05", variant=variant, san=san)
-        res.append(fam("ASan+UBSan %s build: all block-B bit patterns, reset-then-corrected type-2 groups, error codes/thresholds up to 255, malformed strings, allocation failure" % variant,
+        res.append(fam(("MemorySanitizer (clang, caller storage poisoned before init) " if san == "msan" else "ASan+UBSan ") + "%s build: all block-B bit patterns, reset-then-corrected type-2 groups, error codes/thresholds up to 255, malformed strings, allocation failure" % variant,
                        ss, out, variant=variant, san=san, crash_is_violation=True, owned_keys=["crash", "alive"]))
     if tier == "thorough":
         # valgrind memcheck (uninitialised reads) on a subset, plain build
